@@ -7,6 +7,7 @@ names -, one short), the values, a metadata entry, how many other recordings are
 id.  Oracle: fetched id, key set, data under every key and metadata equal what was saved; metadata fetched alone
 agrees; an id that was never saved signals NoSuchRecording.
 """
+from typing import Optional
 from pbsym import ctx, rig as rigm
 from pbsym.ctx import B
 from pbsym.models.assoc import AssocDict
@@ -46,7 +47,7 @@ def _prep(rec):
     return rec
 
 
-def roundtrip(k1: str, k2: str, v1: int, v2: int, mk: str, mv: int, before: bool, after: bool) -> bool:
+def roundtrip(k1: str, k2: str, v1: Optional[int], v2: int, mk: str, mv: Optional[int], before: bool, after: bool) -> bool:
     """
     pre: len(k1) <= B('K1') and len(k2) <= B('K2') and len(mk) <= B('K2')
     post: _
@@ -91,7 +92,7 @@ def roundtrip(k1: str, k2: str, v1: int, v2: int, mk: str, mv: int, before: bool
     keys = list(got.get_all_keys())
     ok = ok and len(keys) == len(want) and all(k in want for k in keys)
     for k in list(want.keys()):
-        ok = ok and got.get_data(k) == want[k]
+        ok = ok and got.get_data(k) == want[k] and got[k] == want[k]
     gm = got.get_metadata()
     ok = ok and len(gm) == len(wantm) and all(gm.get(k) == wantm[k] for k in wantm.keys())
     alone = cas.get_recording_metadata(rec.id)
